@@ -420,6 +420,26 @@ class Tensor:
         from . import autograd
         return autograd.backward(self)
 
+    def any(self, dim=None):
+        if dim is not None:
+            unsupported('Tensor.any(dim)')
+        r = False
+        for v in self.a.flat:
+            if _py_bool(v != 0 if self.dtype.cat > 0 else v):
+                r = True
+                break
+        return Tensor(_objarr(r), bool_)
+
+    def all(self, dim=None):
+        if dim is not None:
+            unsupported('Tensor.all(dim)')
+        r = True
+        for v in self.a.flat:
+            if not _py_bool(v != 0 if self.dtype.cat > 0 else v):
+                r = False
+                break
+        return Tensor(_objarr(r), bool_)
+
     def __bool__(self):
         if self.a.size != 1:
             raise RuntimeError('Boolean value of Tensor with more than one value is ambiguous')
